@@ -52,6 +52,50 @@ def _rebound_names(root: ast.AST, names: Collection[str]) -> Collection[str]:
     return rebound
 
 
+def _is_collection(node: ast.AST, root: ast.AST, *, strings: bool) -> bool:
+    """Whether node surely is a builtin collection: a list, tuple, set, dict or range
+
+    These can be iterated over any number of times, and iterating over them does nothing else. A
+    string is such a collection, unless it matters that its elements are strings again."""
+    displays = (ast.List, ast.Tuple, ast.Set, ast.Dict, ast.ListComp, ast.SetComp, ast.DictComp)
+    if isinstance(node, displays):
+        return True
+
+    if strings and core.match_template(node, ast.Constant(value=(str, bytes))):
+        return True
+
+    constructors = ("range", "list", "tuple", "set", "frozenset", "dict", "sorted")
+    if core.match_template(node, ast.Call(func=ast.Name(id=constructors))):
+        return not _rebound_names(root, (node.func.id,))
+
+    if not isinstance(node, ast.Name):
+        return False
+
+    # A variable: when all that ever binds the name are assignments of collections
+    name = node.id
+    values = [
+        assign.value for assign in core.walk(root, ast.Assign(targets=[ast.Name(id=name)]))
+    ]
+    bindings = (
+        ast.Name(id=name, ctx=(ast.Store, ast.Del)),
+        ast.arg(arg=name),
+        ast.FunctionDef(name=name),
+        ast.AsyncFunctionDef(name=name),
+        ast.ClassDef(name=name),
+        ast.alias(name=name, asname=None),
+        ast.alias(asname=name),
+        ast.Global(names={name}),
+        ast.Nonlocal(names={name}),
+    )
+    return (
+        bool(values)
+        and len(values) == sum(1 for _ in core.walk(root, bindings))
+        and all(
+            not isinstance(value, ast.Name) and _is_collection(value, root, strings=strings)
+            for value in values
+    ))
+
+
 @processing.fix
 def optimize_contains_types(source: str) -> str:
     """Replace inlined lists with sets.
@@ -70,7 +114,13 @@ def optimize_contains_types(source: str) -> str:
     if wrapper_names:
         template = core.compile_template(find, wrapper=ast.Name(id=wrapper_names))
 
-        yield from processing.find_replace(source, template, replace)
+        for *rewrite, match in processing.find_replace(
+            source, template, replace, root=root, yield_match=True
+        ):
+            # Anything else may be consumed by the call (an iterator: what is left of it differs),
+            # or may have a membership test of its own (a string: substrings are members)
+            if _is_collection(match.collection, root, strings=False):
+                yield tuple(rewrite)
 
     sorted_list_tuple_call_template = ast.Call(
         func=ast.Name(id=("sorted", "list", "tuple"), ctx=ast.Load), args=[object], keywords=[]
